@@ -44,7 +44,7 @@ def plan(tier):
     return {"cases": 60, "timeout": 400, "wall_budget": 110, "recheck": 2, "nproc": 6}
 
 def gen_case(rng, tier, index):
-    feats = {"vars", "depenv", "diamond", "checkoutscript"} | set(rng.sample(["import", "provideVars", "tools", "classes", "forward", "provideDeps", "passthrough", "passthrough"], rng.randint(0, 4)))
+    feats = {"vars", "depenv", "diamond", "checkoutscript"} | set(rng.sample(["import", "provideVars", "tools", "classes", "forward", "provideDeps", "passthrough", "passthrough", "twins", "twins"], rng.randint(0, 4)))
     model = projgen.gen_valid_project(rng, nmin=4, nmax=7, features=feats)
     ops = [["dev", 1, rng.getrandbits(32)]]
     # values from a tiny pool: variants disappear and *re-appear* while others exist
